@@ -194,7 +194,7 @@ def library_session(wd, label):
     os.makedirs(wd)
     log = os.path.join(wd, "strace.log")
     out = os.path.join(wd, "report.json")
-    cmd = ["strace", "-f", "-o", log, "-e", TRACE, "/verif/target/hv/release/hv", "worker", "C16", "--tier", "quick", "--seed", "3", "--scale", "0.05", "--out", out, "--hb", os.path.join(wd, "hb")]
+    cmd = ["strace", "-f", "-o", log, "-e", TRACE, os.path.join(os.path.dirname(os.path.dirname(os.path.abspath(__file__))), "target", "hv", "release", "hv"), "worker", "C16", "--tier", "quick", "--seed", "3", "--scale", "0.05", "--out", out, "--hb", os.path.join(wd, "hb")]
     r = subprocess.run(cmd, stdout=subprocess.PIPE, stderr=subprocess.STDOUT, text=True, timeout=600)
     if r.returncode != 0:
         raise RuntimeError("library workload failed: %s" % r.stdout[-300:])
